@@ -745,6 +745,17 @@ func checkC10(c *Check, p *Program) {
 			behind := anyFact(factsAt(r.Block()), func(f Cmp) bool {
 				return f.Op == token.EQL && (sendCalls[f.X] && isNilConst(f.Y) || sendCalls[f.Y] && isNilConst(f.X))
 			})
+			// ... or the exit returns the transmission's own result: nil exactly when it succeeded
+			if !behind {
+				vals := resultValues(r, 0)
+				own := len(vals) > 0
+				for _, v := range vals {
+					if !sendCalls[v] && p.mayBeNil(v, r.Block()) {
+						own = false
+					}
+				}
+				behind = own
+			}
 			c.Decide(behind, "C10.K7", FuncName(sender)+" success only after a transmission that succeeded", p.InstrPos(r), "the exit lies behind Socket.Send(...) == nil", "Send can report success without having looked at the error of its transmission: after Close (or a socket failure) the frame goes nowhere and the caller is told it was sent")
 		}
 		c.Floor("C10.K7", "exits of the sender that may report success", nSucc, 1)
